@@ -540,3 +540,148 @@ Proof.
   split; [split; [vm_compute; repeat constructor | vm_compute; repeat constructor]|].
   vm_compute. reflexivity.
 Qed.
+
+(* ---------- no checkpoint frame has to_seq 0 in a reachable thread ---------- *)
+Definition G (l : list ev) : Prop :=
+  l <> [] /\ Forall (fun m => fst m <> 0) (msgs l) /\ Forall (fun c => ck_to c <> 0) (ckpts l).
+
+Lemma next_seq_nonzero l : l <> [] -> next_seq l <> 0.
+Proof.
+  intros H. unfold next_seq. destruct (rev l) as [|e r] eqn:E; [|lia].
+  apply (f_equal (@rev ev)) in E. rewrite rev_involutive in E. cbn in E. contradiction.
+Qed.
+
+Lemma G_append s b : G (log s) -> (forall r a t m, b = BCkpt r a t m -> t <> 0) -> G (log (append s b)).
+Proof.
+  intros [Hn [Hm Hc]] Hb. unfold append. cbn [log]. split; [|split].
+  - intros E. apply app_eq_nil in E. destruct E as [_ E]. discriminate.
+  - rewrite msgs_app. apply Forall_app. split; [exact Hm|]. unfold msgs. cbn [flat_map ebody eseq eid].
+    destruct b; cbn [app]; try constructor; [|constructor]. cbn [fst]. apply next_seq_nonzero, Hn.
+  - rewrite ckpts_app. apply Forall_app. split; [exact Hc|]. unfold ckpts. cbn [flat_map ebody eseq eid].
+    destruct b; cbn [app]; try constructor; [|constructor]. cbn [ck_to]. eapply Hb. reflexivity.
+Qed.
+
+Lemma G_same_log s s' : log s' = log s -> G (log s) -> G (log s').
+Proof. intros ->. auto. Qed.
+
+Lemma cut_read_in K snap s p v : cut_read K snap s p = Ok v -> exists x, In (pl_seq p, pl_mid p, x) (msg_full snap).
+Proof.
+  rewrite cut_read_is_g. unfold cut_read_g. destruct (basis_of (art_read s) (fst (select_base K (log s) snap (pl_seq p)))) as [[[b0 bs] nt] us].
+  destruct (nth_error (msg_full snap) (upper_bound (msg_full snap) (pl_seq p) - 1)) as [[[ls lid] x]|] eqn:En; [|discriminate].
+  destruct ((ls =? pl_seq p) && (lid =? pl_mid p)) eqn:E; [|discriminate]. intros _.
+  apply andb_true_iff in E. destruct E as [E1 E2]. apply N.eqb_eq in E1, E2. subst. exists x. eapply nth_error_In, En.
+Qed.
+
+Lemma msg_full_seq_nonzero l s id x : Forall (fun m => fst m <> 0) (msgs l) -> In (s, id, x) (msg_full l) -> s <> 0.
+Proof.
+  intros H Hin. rewrite <- msgs_of_full in H. rewrite Forall_forall in H.
+  apply (H (s, id)). apply in_map_iff. exists (s, id, x). split; [reflexivity | exact Hin].
+Qed.
+
+Lemma run_cut_G K snap stride s p s2 c :
+  Forall (fun m => fst m <> 0) (msgs snap) -> run_cut K snap stride s p = Ok (s2, c) -> G (log s) -> G (log s2).
+Proof.
+  intros Hsnap Hr HG. pose proof Hr as Hr2. rewrite run_cut_split in Hr2.
+  destruct (cut_read K snap s p) as [v|e] eqn:Ec; [|discriminate].
+  destruct (cut_read_in K snap s p v Ec) as [x Hx].
+  apply run_cut_log in Hr. destruct Hr as [v' [-> _]].
+  apply (G_append {| log := log s; arts := arts s ++ [(fresh_art s, v')] |}); [exact HG|].
+  unfold ck_frame. intros r a t m E. injection E as _ _ <- _. eapply msg_full_seq_nonzero; eassumption.
+Qed.
+
+Lemma run_cuts_G K snap stride : forall ps s acc s' made err,
+  Forall (fun m => fst m <> 0) (msgs snap) ->
+  run_cuts K snap stride s ps acc = (s', made, err) -> G (log s) -> G (log s').
+Proof.
+  induction ps as [|p ps IH]; intros s acc s' made err Hsnap H HG; cbn [run_cuts] in H.
+  - injection H as <- _ _. exact HG.
+  - destruct (run_cut K snap stride s p) as [[s2 c]|e] eqn:E.
+    + eapply IH; [exact Hsnap | exact H|]. eapply run_cut_G; eassumption.
+    + injection H as <- _ _. exact HG.
+Qed.
+
+Lemma not_ck_append s b : G (log s) -> (forall r a t m, b <> BCkpt r a t m) -> G (log (append s b)).
+Proof. intros HG Hb. apply G_append; [exact HG|]. intros r a t m E. exfalso. eapply Hb, E. Qed.
+
+Lemma run_job_G K j stride planned s : G (log s) -> G (log (fst (fst (run_job K j stride planned s)))).
+Proof.
+  intros HG. unfold run_job.
+  destruct (run_cuts K (log s) stride s (plan_sort planned) []) as [[s1 made] err] eqn:E. cbn [fst].
+  apply not_ck_append; [|intros; discriminate]. eapply run_cuts_G; [|exact E | exact HG]. apply HG.
+Qed.
+
+Lemma auto_spawn_G K stride maxnew dry s : G (log s) -> G (log (fst (auto_spawn K stride maxnew dry s))).
+Proof.
+  intros HG. unfold auto_spawn. destruct (plan_cuts K stride maxnew (log s)); [exact HG|].
+  destruct dry; [exact HG|]. cbn [fst]. apply not_ck_append; [exact HG | intros; discriminate].
+Qed.
+
+Lemma auto_G K ostride omax odry s : G (log s) -> G (log (fst (auto K ostride omax odry s))).
+Proof.
+  intros HG. unfold auto. destruct (opt_or ostride (k_default_stride K) =? 0); [exact HG|].
+  pose proof (auto_spawn_G K (opt_or ostride (k_default_stride K))
+                (clamp (k_maxnew_lo K) (k_maxnew_hi K) (opt_or omax 1)) (opt_orb odry false) s HG) as H1.
+  destruct (auto_spawn K _ _ _ s) as [s1 r]. cbn [fst] in H1.
+  destruct (ar_job r) as [j|]; [|exact H1].
+  pose proof (run_job_G K j (opt_or ostride (k_default_stride K)) (ar_planned r) s1 H1) as H2.
+  destruct (run_job K j _ (ar_planned r) s1) as [[s2 made] err]. exact H2.
+Qed.
+
+Lemma sched_G K ostride omax oblock oexec odry s :
+  G (log s) -> G (log (fst (sched K ostride omax oblock oexec odry s))).
+Proof.
+  intros HG. unfold sched. destruct (opt_or ostride (k_default_stride K) =? 0); [exact HG|].
+  destruct (plan_cuts K _ _ (log s)) as [|p0 pr] eqn:Ep; [exact HG|]. rewrite <- Ep.
+  destruct (opt_orb odry false); [exact HG|].
+  destruct (if opt_orb oblock true then find_inflight K (log s) else None).
+  - cbn [fst]. apply not_ck_append; [exact HG | intros; discriminate].
+  - pose proof (auto_spawn_G K (opt_or ostride (k_default_stride K))
+                  (clamp (k_maxnew_lo K) (k_maxnew_hi K) (opt_or omax 1)) false s HG) as H1.
+    destruct (auto_spawn K _ _ false s) as [s1 r]. cbn [fst] in H1.
+    destruct (ar_job r) as [j|]; [|exact H1].
+    assert (H2 : G (log (append s1 (BDecided 3 (Some j) (plan_cuts K (opt_or ostride (k_default_stride K))
+                   (clamp (k_maxnew_lo K) (k_maxnew_hi K) (opt_or omax 1)) (log s))
+                   (opt_or ostride (k_default_stride K)) (clamp (k_maxnew_lo K) (k_maxnew_hi K) (opt_or omax 1))
+                   (opt_orb oblock true) (opt_orb oexec true) (nlen (msgs (log s)))))))
+      by (apply not_ck_append; [exact H1 | intros; discriminate]).
+    destruct (opt_orb oexec true); [|exact H2].
+    match goal with |- context [run_job K j ?st ?pl ?s2] =>
+      pose proof (run_job_G K j st pl s2 H2) as H3; destruct (run_job K j st pl s2) as [[s3 made] err] end.
+    exact H3.
+Qed.
+
+Lemma step_G K s o : G (log s) -> G (log (fst (step K s o))).
+Proof.
+  intros HG. destruct o; cbn [step fst]; try exact HG; try (apply not_ck_append; [exact HG | intros; discriminate]).
+  - pose proof (manual_boundary K r s) as H. destruct (manual K r s) as [s' [[[[[ck a] ts] tm] rule]|e]]; cbn [fst].
+    + destruct H as [Hin [Hl _]]. destruct HG as [Hn [Hm Hc]]. rewrite Hl. split; [|split].
+      * intros E. apply app_eq_nil in E. destruct E as [_ E]. discriminate.
+      * rewrite msgs_app. unfold msgs at 2. cbn [flat_map ebody app]. rewrite app_nil_r. exact Hm.
+      * rewrite ckpts_app. apply Forall_app. split; [exact Hc|]. unfold ckpts. cbn [flat_map ebody app].
+        constructor; [|constructor]. cbn [ck_to]. rewrite Forall_forall in Hm. apply (Hm (ts, tm) Hin).
+    + subst s'. exact HG.
+  - pose proof (auto_G K stride maxnew dry s HG) as H. destruct (auto K stride maxnew dry s). exact H.
+  - pose proof (sched_G K stride maxnew block exec dry s HG) as H. destruct (sched K stride maxnew block exec dry s). exact H.
+Qed.
+
+Lemma run_ops_G K : forall ops s acc, G (log s) -> G (log (fst (run_ops K s ops acc))).
+Proof.
+  induction ops as [|o ops IH]; intros s acc HG; cbn [run_ops]; [exact HG|].
+  pose proof (step_G K s o HG) as H. destruct (step K s o) as [s' out]. apply IH, H.
+Qed.
+
+Lemma G_st0 : G (log st0).
+Proof. split; [discriminate|]. split; constructor. Qed.
+
+Theorem reachable_ck_nonzero K ops :
+  Forall (fun c => ck_to c <> 0) (ckpts (log (fst (run_ops K st0 ops [])))).
+Proof. apply (run_ops_G K ops st0 [] G_st0). Qed.
+
+(* the hypotheses of the summary theorems hold in every state the modelled operations reach from a fresh thread *)
+Theorem reachable_summary_hyps K ops :
+  msorted (log (fst (run_ops K st0 ops [])))
+  /\ Forall (fun c => ck_to c <> 0) (ckpts (log (fst (run_ops K st0 ops [])))).
+Proof.
+  split; [|apply reachable_ck_nonzero].
+  apply valid_msgs_sorted. apply (reachable_valid K ops st0 []). apply valid_st0.
+Qed.
